@@ -699,6 +699,10 @@ func (sc *specCtx) call(e *ast.CallExpr) Value {
 		v := sc.eval(arg(1))
 		v.T = t
 		return x.makeInterface(sc.st, v, types.NewInterfaceType(nil, nil))
+	case "foreign":
+		// the dynamic type of the value is defined outside the module (or the value is nil)
+		v := sc.eval(arg(0))
+		return mBool(Or(Eq(v.C[0], Num(0)), Lt(App("dyntype", SInt, v.C[0]), Num(0))))
 	case "hastype":
 		v := sc.eval(arg(0))
 		t := sc.typeExpr(arg(1))
